@@ -296,7 +296,8 @@ def check(case, mon, ctx):
     eng2.line_height = Ht
     with contextlib.redirect_stdout(io.StringIO()):
         crop_t = eng2.crop(img, pts, heights_object(case))
-    if crop_t.shape[0] != Ht or (crop_t.shape[1] == 32 and Ww > 40 and not crop_t.any()):
+    # (its width is that of the grid for the new height; a blank crop by itself says nothing - the line may lie outside the page)
+    if crop_t.shape[0] != Ht or abs(crop_t.shape[1] - c_t.shape[1]) > 1:
         mon.violation('configured-height', {'note': 'line_height re-assigned from %d to %d after construction' % (H, Ht), 'shape': list(crop_t.shape)})
     step = band / H
     if crop.shape[1] != Ww:
